@@ -24,3 +24,55 @@ Theorem C11_inject_substitutes :
   inject_loop ftext b params toks count = Ok out.
 Proof. exact inject_loop_spec. Qed.
 Print Assumptions C11_inject_substitutes.
+
+(* Character level (Proofs/TemplateCharProofs.v): for EVERY template assembled from pieces -- well-formed
+   quoted text with any of the four delimiters (doubled delimiters and backslash escapes inside, any
+   marks inside), words, runs of blanks, single punctuation characters, adjacent pieces not fusing --
+   of any length, and for every classification of alphabetic characters: the crate's tokenizer returns
+   exactly one token per piece, so a quoted piece is one Quoted token and a mark inside it is never a
+   placeholder; and the CustomWithExpr rendering of the template is the interpretation of the
+   segmentation of those pieces. *)
+Require Import SQV.Model.Expr SQV.Proofs.TokenProofs SQV.Proofs.TemplateCharProofs.
+Theorem C11_tokenize_pieces :
+  forall is_alpha ps, pieces_ok is_alpha ps ->
+  tokenize is_alpha (template_text ps) = Some (map ptok ps).
+Proof. exact tokenize_pieces. Qed.
+Print Assumptions C11_tokenize_pieces.
+
+Theorem C11_custom_template_char_level :
+  forall (Q : Type) (rq : Q -> script) is_alpha b T common (ps : list piece) (es : list (expr Q)) segs out,
+  pieces_ok is_alpha ps ->
+  Seg (fst (placeholder b)) (snd (placeholder b)) (map ptok ps) segs ->
+  interp [WCust (fst (placeholder b))] (fun s => [WCust s]) (map (rexpr Q rq is_alpha b T false) es) segs 0 = Some out ->
+  rexpr Q rq is_alpha b T common (ECustomWith (template_text ps) es) = out.
+Proof. exact custom_template_char_level. Qed.
+Print Assumptions C11_custom_template_char_level.
+
+(* non-vacuity: the template  a = 'x?''y' AND b = ?  (ASCII letters alphabetic) is piecewise
+   well-formed, and its only placeholder is the final mark *)
+Example C11_pieces_inhabited :
+  let is_alpha := fun c : N => ((65 <=? c) && (c <=? 90)) || ((97 <=? c) && (c <=? 122)) in
+  let ps := [PW [97]; PS [32]; PP 61; PS [32]; PQ 39 [120; 63; 39; 39; 121]; PS [32]; PW [65; 78; 68]; PS [32];
+             PW [98]; PS [32]; PP 61; PS [32]; PP 63] in
+  pieces_ok is_alpha ps /\
+  Seg [63] false (map ptok ps)
+    [SText [97]; SText [32]; SText [61]; SText [32]; SText [39; 120; 63; 39; 39; 121; 39]; SText [32];
+     SText [65; 78; 68]; SText [32]; SText [98]; SText [32]; SText [61]; SText [32]; SPos].
+Proof.
+  intros is_alpha ps. split.
+  - cbn [pieces_ok ps piece_ok template_text map concat ptext app].
+    repeat match goal with
+    | |- _ /\ _ => split
+    | |- exists c t, _ => eexists _, _
+    | |- True => exact I
+    | |- _ = _ => reflexivity
+    | |- _ <> _ => discriminate
+    | |- body _ _ => first [apply body_nil | apply body_doubled; [reflexivity|reflexivity|] | apply body_plain; [reflexivity|reflexivity|]]
+    | |- no_doubling _ _ => reflexivity
+    | |- starts_not _ _ _ => reflexivity
+    | |- starts_not _ _ => reflexivity
+    end.
+  - cbn [ps map ptok].
+    repeat (apply seg_text; [reflexivity|]).
+    apply seg_pos; [reflexivity|reflexivity|exact I|constructor].
+Qed.
